@@ -292,7 +292,7 @@ def gen_ops(seed_parts, world, profile, max_steps):
     return ops, pre_ops
 
 
-PROFILE_C18 = {"n_inputs": (1, 4), "p_clim": 0.25}
+PROFILE_C18 = {"n_inputs": (1, 4), "p_clim": 0.25, "p_inf": 0.04}
 
 
 def gen_spec(prop, verif_seed, run, tier, profile=None):
